@@ -124,6 +124,12 @@ def run(facts, tier, ctx):
                     continue
                 sites += 1
                 arg = t["args"][param[0] - 1]
+                # a non-zero constant width (the operand type's BITS, or a literal) needs no guard
+                cons = [o[1] for o in b.origins(arg) if o[0] == "const"]
+                if cons and len(cons) == len(b.origins(arg)) and all(
+                        (isinstance(c_.get("sv", c_.get("v")), int) and c_.get("sv", c_.get("v")) >= 1)
+                        or re.search(r"seal_(signed_)?bits::Sealed::BITS$", str(c_.get("cdef") or "")) for c_ in cons):
+                    continue
                 ids = idents(b.origins(arg))
                 if len(ids) != 1:
                     return False, "%s passes a computed width" % b.loc(bi, "term")
@@ -276,6 +282,17 @@ def run(facts, tier, ctx):
                 rhs = lexpr(fr, st["rv"]["b"])
                 if "BITS" in str(rhs):
                     okreader = True
+    if not okreader and fill_readers:
+        # the formula may live in a helper: accept the reader if its summary is (-bitlength) mod word width (PADFORMULA)
+        from . import lib_effect as E2
+        for fr in fill_readers:
+            try:
+                it_ = E2.Interp(E2.Ctx(facts), fr)
+                it_.run()
+                if all(_eval_pad(it_.retval, B_, 64) == (-B_) % 64 for B_ in (0, 1, 7, 63, 64, 65, 130)):
+                    okreader = True
+            except Exception:
+                pass
     if not okreader:
         fs.fail(Finding("FILLSTATE", "bitsink::MemSink::paddings", "fill-reader-not-found", 0, "",
                         "cannot find the word-level fill reader (bitlength masked with BITS - 1)"))
@@ -704,6 +721,18 @@ def rule_length(facts, impls):
                         for x, y in ((ce[2], ce[3]), (ce[3], ce[2])):
                             if E.is_c(y):
                                 subst[E.canon(x)] = {"": y[1]} if y[1] else {}
+                    # unsigned counts: `n > 0` false, `n >= 1` false, `n <= 0` true, `0 < n` false all mean n == 0
+                    if isinstance(ce, tuple) and ce[0] == "bin":
+                        op_, a_, b_ = ce[1], E.strip_casts(ce[2]), E.strip_casts(ce[3])
+                        z = None
+                        if (op_ == "Gt" and E.is_c(b_, 0) and labs == (0,)) or (op_ == "Ge" and E.is_c(b_, 1) and labs == (0,)) \
+                                or (op_ == "Le" and E.is_c(b_, 0) and labs == (1,)) or (op_ == "Lt" and E.is_c(b_, 1) and labs == (1,)):
+                            z = a_
+                        if (op_ == "Lt" and E.is_c(a_, 0) and labs == (0,)) or (op_ == "Le" and E.is_c(a_, 1) and labs == (0,)) \
+                                or (op_ == "Ge" and E.is_c(a_, 0) and labs == (1,)):
+                            z = b_
+                        if z is not None and re.match(r"^arg\d+$", E.canon(z)):
+                            subst[E.canon(z)] = {}
                 nleaf += 1
                 got = _poly(leaf, subst)
                 got["arg1.bitlength"] = got.get("arg1.bitlength", 0) - 1
@@ -873,6 +902,8 @@ def _evals(e, env):
                 return env["W"] // 8 if env.get("W") else None
             if any(v is None for v in vs):
                 return None
+            if nm.endswith("::wrapping_neg"):
+                return (-vs[0]) & M
             if nm.endswith("::wrapping_add"):
                 return (vs[0] + vs[1]) & M
             if nm.endswith("::wrapping_sub"):
